@@ -253,6 +253,14 @@ class PyEval(MiniEval):
         return super().ev(e, env)
 
     def assign(self, target: ast.expr, value: Any, env: dict) -> None:
+        if isinstance(target, ast.Attribute):
+            try:
+                base = self.ev(target.value, env)
+            except Unsupported:
+                base = None
+            if isinstance(base, Tok):
+                base.attrs[target.attr] = value
+                return
         if isinstance(target, ast.Subscript):
             try:
                 base = self.ev(target.value, env)
@@ -383,6 +391,10 @@ class PyEval(MiniEval):
                 h = recv.attrs.get("__methods__", {}).get(m)
                 if h is not None:
                     return h(recv, A())
+                for c in recv.attrs.get("__classes__", ()):
+                    fm = c.find_method(m)
+                    if fm is not None:
+                        return self.call_method(fm, recv, node, env)
                 return Opaque(f"{recv!r}.{m}()")
             if isinstance(recv, list) and m == "append":
                 recv.append(A()[0])
@@ -436,6 +448,8 @@ class PyEval(MiniEval):
                     raise Raised("zip() argument lengths differ", "ValueError")
                 return [tuple(t) for t in zip(*seqs)]
             raise Unsupported("zip of non-sequences")
+        if fn == "enumerate" and len(node.args) == 1 and isinstance(A()[0], (list, tuple)):
+            return [(i, x) for i, x in enumerate(A()[0])]
         if fn in ("cast",) and len(node.args) == 2:
             return self.ev(node.args[1], env)  # the type argument is not evaluated
         if fn in ("list", "tuple") and len(node.args) == 1 and isinstance(A()[0], (list, tuple)):
@@ -474,6 +488,35 @@ class PyEval(MiniEval):
         for kw in node.keywords:
             if kw.arg:
                 new[kw.arg] = self.ev(kw.value, env)
+        for p, d in zip(params[len(params) - len(defaults):], defaults):
+            if p not in new:
+                new[p] = self.ev(d, {})
+        self.depth += 1
+        try:
+            out = self.run(f.node.body, new)
+        finally:
+            self.depth -= 1
+        if out[0] == "raise":
+            raise Raised(f"{f.name}: {out[1]}", str(out[1]))
+        return out[1] if out[0] == "return" else None
+
+    def call_method(self, f: FuncInfo, recv: Any, node: ast.Call, env: dict) -> Any:
+        """Interpret a repository method with `self` bound to a token."""
+        if self.depth >= self.max_depth:
+            raise Unsupported("call depth")
+        params = [a.arg for a in f.node.args.posonlyargs + f.node.args.args]
+        static = "staticmethod" in f.decorator_names()
+        new: dict = {k: v for k, v in env.items() if callable(v)}
+        vals = [self.ev(a, env) for a in node.args]
+        names = params if static else params[1:]
+        if not static and params:
+            new[params[0]] = recv
+        for p, v in zip(names, vals):
+            new[p] = v
+        for kw in node.keywords:
+            if kw.arg:
+                new[kw.arg] = self.ev(kw.value, env)
+        defaults = f.node.args.defaults
         for p, d in zip(params[len(params) - len(defaults):], defaults):
             if p not in new:
                 new[p] = self.ev(d, {})
